@@ -176,6 +176,14 @@ def run(ctx):
              "_raise_if_not_alive()", floor=3)
     _r3(ctx, repo, A, pm)
 
+    # ------------------------------------------------------------------- R8
+    ctx.rule("C03.R8", "sub-objects of a LIVE process come and go: every access to a "
+             "per-descriptor or per-thread entry (<pid>/fd/<n>, <pid>/fdinfo/<n>, "
+             "<pid>/task/<tid>/...) - opening it, reading what was opened, resolving "
+             "the link - sits in a try that catches ENOENT and ESRCH locally (the "
+             "translator would re-raise them bare, the process being alive)", floor=4)
+    _r8(ctx, repo, A, pm)
+
     # ------------------------------------------------------------------- R4
     ctx.rule("C03.R4", "zombie-empty guards: a 'null' value ([] or the readlink "
              "fallback) for a file the kernel leaves empty is returned only after "
@@ -526,3 +534,78 @@ def _r6(ctx, repo, A):
                          f"{fi.name}() on a live process raises NoSuchProcess carrying the "
                          f"other process's pid")
     ctx.require(n >= 5, f"only {n} foreign-process sites found in psutil.Process")
+
+
+SUBOBJ = ("/fd/", "/fdinfo/", "/task/")
+ACCESS = {"open_binary", "open_text", "open", "readlink", "os.readlink", "bcat", "cat",
+          "os.stat", "os.lstat", "os.listdir", "os.scandir"}
+
+
+def _r8(ctx, repo, A, pm, rule="C03.R8", only=None, floor=4):
+    from ..core.astutil import deref, enclosing_trys, handler_catches
+
+    def is_subobj(e, fnode):
+        d = deref(fnode, e)
+        if isinstance(d, ast.Name):
+            # re-used path variable: take the closest assignment before the use
+            defs = [st for st in ast.walk(fnode) if isinstance(st, ast.Assign)
+                    and len(st.targets) == 1 and dotted(st.targets[0]) == d.id
+                    and st.lineno <= getattr(e, "lineno", 10 ** 9)]
+            if defs:
+                d = max(defs, key=lambda st: st.lineno).value
+        for x in ast.walk(d):
+            if isinstance(x, ast.JoinedStr):
+                for i, v in enumerate(x.values[:-1]):
+                    if isinstance(v, ast.Constant) and isinstance(v.value, str) \
+                            and v.value.endswith(SUBOBJ) \
+                            and isinstance(x.values[i + 1], ast.FormattedValue):
+                        return v.value
+        return None
+    nsites = 0
+    funcs = [f for f in repo.all_funcs(pm) if f.parent is None
+             and (f.cls in ("Process", "NetConnections") or f.cls is None)
+             and (only is None or f.qual in only)]
+    for f in funcs:
+        fobj = {}
+        sites = []
+        for c in calls_in(f.node):
+            nm = dotted(c.func) or ""
+            if (nm in ACCESS or nm.split(".")[-1] in ACCESS) and c.args:
+                kind = is_subobj(c.args[0], f.node)
+                if kind:
+                    sites.append((c, f"{nm}(<pid>{kind}<x>)"))
+        # file objects opened on a sub-object, and the reads made on them
+        for w in ast.walk(f.node):
+            pairs = []
+            if isinstance(w, ast.With):
+                pairs = [(i.optional_vars, i.context_expr) for i in w.items if i.optional_vars]
+            elif isinstance(w, ast.Assign) and len(w.targets) == 1:
+                pairs = [(w.targets[0], w.value)]
+            for tgt, val in pairs:
+                if isinstance(tgt, ast.Name) and isinstance(val, ast.Call) and val.args \
+                        and (dotted(val.func) or "").split(".")[-1] in ("open_binary", "open_text", "open"):
+                    k = is_subobj(val.args[0], f.node)
+                    if k:
+                        fobj[tgt.id] = k
+        for c in calls_in(f.node):
+            if isinstance(c.func, ast.Attribute) and c.func.attr in ("read", "readline", "readlines") \
+                    and dotted(c.func.value) in fobj:
+                sites.append((c, f"{dotted(c.func.value)}.{c.func.attr}() on <pid>{fobj[dotted(c.func.value)]}<x>"))
+        for lp in ast.walk(f.node):
+            if isinstance(lp, ast.For) and dotted(lp.iter) in fobj:
+                sites.append((lp.iter, f"iteration over <pid>{fobj[dotted(lp.iter)]}<x>"))
+        for c, what in sites:
+            nsites += 1
+            key = f"{f.qual}:{what}"
+            trys = enclosing_trys(f.node, c)
+            ok = any(handler_catches(h, ["FileNotFoundError"]) for t in trys for h in t.handlers) \
+                and any(handler_catches(h, ["ProcessLookupError"]) for t in trys for h in t.handlers)
+            if ok:
+                ctx.ok(rule, key, sample=f"{f.qual}: {what} under except (ENOENT, ESRCH)")
+            else:
+                ctx.fail(rule, key, f.file, getattr(c, "lineno", f.node.lineno), f.qual,
+                         f"{what} is not inside a try catching FileNotFoundError and "
+                         f"ProcessLookupError: a descriptor closed / thread ended while the "
+                         f"process is alive makes the call fail with a bare OSError (the "
+                         f"translator re-raises ENOENT when <pid>/stat still exists)")
+    ctx.require(nsites >= floor, f"only {nsites} per-descriptor / per-thread accesses found")
